@@ -124,7 +124,7 @@ pub fn run(seed: u64, ntraces: usize) {
         w.deploy(&owner, &gas, b"gas", vec![owner.to_vec()]);
         let mut params = vec![0u8]; params.push(1); params.extend(nested_buf(b"EGLD"));
         w.deploy(&owner, &tmt, b"tm", vec![owner.to_vec(), vec![2u8], vec![0u8; 32], params]);
-        let hub_set = r.chance(5, 6);
+        let hub_set = r.chance(5, 6) || t % 10 == 6 || t % 10 == 1;
         let mut chains: Vec<(Vec<u8>, Vec<u8>)> = vec![(b"ethereum".to_vec(), b"0xITSeth".to_vec()), (b"avalanche".to_vec(), b"hub".to_vec()), (b"polygon".to_vec(), b"0xITSpoly".to_vec())];
         if hub_set { chains.push((b"axelar".to_vec(), b"axelar1hub".to_vec())); }
         let mut args = vec![gw.to_vec(), gas.to_vec(), tmt.to_vec(), operator.to_vec(), b"multiversx".to_vec(), big(chains.len() as u64)];
@@ -193,10 +193,10 @@ pub fn run(seed: u64, ntraces: usize) {
                 script.extend([22u64]);
             }
         }
-        if t % 10 == 2 || t % 10 == 3 || t % 10 == 7 {
-            // local deployment driven step by step: (2) two issuances in flight, (3) the service named as minter, (7) steps under pause
+        if t % 10 == 2 || t % 10 == 3 || t % 10 == 7 || t % 10 == 4 {
+            // local deployment driven step by step: (2) two issuances in flight, (3) the service named as minter, (7) steps under pause, (4) no minter: the mint step repeated
             let u = g.users[2].clone(); let salt = r.bytes(32); let supply = 1000u64;
-            let minter = if t % 10 == 3 { g.its.to_vec() } else { g.users[0].to_vec() };
+            let minter = if t % 10 == 3 { g.its.to_vec() } else if t % 10 == 4 { vec![0u8; 32] } else { g.users[0].to_vec() };
             let dt = |g: &mut W, egld: u64| -> (bool, Vec<Vec<u8>>, Option<VMAddress>) {
                 g.its_tx("deployToken", &u, "deployInterchainToken", vec![salt.clone(), b"MyToken".to_vec(), b"MTK".to_vec(), vec![18], big(supply), minter.clone()], egld, &[],
                     json!({"salt": hx(&salt), "name": hx(b"MyToken"), "symbol": hx(b"MTK"), "decimals": 18, "supply": supply.to_string(), "minter": hx(&minter)})) };
@@ -208,6 +208,24 @@ pub fn run(seed: u64, ntraces: usize) {
             if t % 10 == 7 { script.extend([10u64, 2, 15, 10]); }       // pause, try step 3 and a remote deployment, unpause
             else { script.extend([3u64, 23, 3, 3]); }                   // step 3, second issuance callback, step 3 again (twice)
         }
+        if t % 10 == 1 || t % 10 == 6 {
+            // (1) an inbound link / deploy message for a token id that is already bound; (6) hub-wrapped inbound messages while paused
+            let u = g.users[0].clone();
+            let (ok, rets, dep) = g.its_tx("registerCanonical", &u, "registerCanonicalInterchainToken", vec![tok.clone()], 0, &[], json!({"token": hx(&tok)}));
+            if ok {
+                let tid = rets.last().unwrap().clone();
+                g.toks.push(Tok { id: tid.clone(), kind: "lock", tm: dep.unwrap(), token: Some(tok.clone()), salt: vec![], deployer: u.clone(), supply: 0, minter: vec![], custody: 60 });
+                let e = vec![(tok.clone(), 0u64, bn(60))];
+                g.its_tx("transfer", &u, "interchainTransfer", vec![tid.clone(), b"ethereum".to_vec(), b"0xdead".to_vec(), vec![], vec![]], 0, &e,
+                    json!({"token_id": hx(&tid), "dchain": hx(b"ethereum"), "daddr": hx(b"0xdead"), "metadata": "", "gas": "0"}));
+                if t % 10 == 1 { script.extend([190u64, 191, 192, 190]); }
+                else {
+                    let ow = g.owner.clone();
+                    let (okp, _, _) = g.its_tx("pause", &ow, "pause", vec![], 0, &[], json!({"paused": true})); if okp { g.paused = true; }
+                    script.extend([162u64, 172, 182, 160, 10, 162]);
+                }
+            }
+        }
         // --- a few registrations first, so that later operations have something to act on
         let nactions = 10 + r.below(14) as usize;
         if script.is_empty() { script = vec![0, 2]; }     // canonical TOK, start a native deployment
@@ -216,9 +234,13 @@ pub fn run(seed: u64, ntraces: usize) {
             g.now += match r.below(6) { 0 => 21600, _ => r.below(300) }; let now = g.now; g.w.set_time(now);
             let anyone = r.pick(&g.users).clone();
             let has_pending = !g.pend.is_empty();
+            let scripted = !script.is_empty();
             let a = if !script.is_empty() { script.remove(0) } else if has_pending && r.chance(1, 2) { 20 } else { *r.pick(&[0u64, 1, 2, 3, 3, 3, 4, 4, 4, 5, 5, 5, 6, 6, 6, 7, 7, 7, 7, 8, 9, 10, 11, 12, 12, 13, 14, 14, 15, 16, 17, 18]) };
             let force_fail = a == 21; let force_props_ok = a == 22; let force_issue_ok = a == 23;
             let a = if a == 21 || a == 22 || a == 23 { 20 } else { a };
+            // 1<a><v>: inbound message kind a (6, 7, 8) in routing variant v; 190..192: inbound link / deploy for an already bound token id (direct, hub-wrapped, deploy)
+            let mut fvar: Option<u64> = None; let mut fbound: Option<u64> = None;
+            let a = if (190..=192).contains(&a) { fbound = Some(a - 190); fvar = Some(if a == 191 { 2 } else { 0 }); 8 } else if a >= 100 { fvar = Some(a % 10); (a - 100) / 10 } else { a };
             match a {
                 0 => { // registerCanonicalInterchainToken
                     let token = match r.below(5) { 0 => b"EGLD".to_vec(), 1 => b"bad".to_vec(), 2 => tok2.clone(), _ => tok.clone() };
@@ -244,8 +266,8 @@ pub fn run(seed: u64, ntraces: usize) {
                     };
                     let known = g.toks.iter().find(|t| t.salt == salt && t.kind == "native");
                     let issuing = known.map(|t| t.token.is_none()).unwrap_or(false) && !g.pend.iter().any(|p| matches!(&p.kind, PKind::Issue(_, tm) if Some(tm) == known.map(|t| &t.tm)));
-                    let egld = if r.chance(1, 8) { *r.pick(&[0u64, ISSUE_COST]) } else if issuing { ISSUE_COST } else { 0 };
-                    let name = if r.chance(1, 10) { vec![] } else { b"MyToken".to_vec() };
+                    let egld = if !scripted && r.chance(1, 8) { *r.pick(&[0u64, ISSUE_COST]) } else if issuing { ISSUE_COST } else { 0 };
+                    let name = if !scripted && r.chance(1, 10) { vec![] } else { b"MyToken".to_vec() };
                     let (ok, rets, dep) = g.its_tx("deployToken", &deployer, "deployInterchainToken", vec![salt.clone(), name.clone(), b"MTK".to_vec(), vec![18], big(supply), minter.clone()], egld, &[],
                         json!({"salt": hx(&salt), "name": hx(&name), "symbol": hx(b"MTK"), "decimals": 18, "supply": supply.to_string(), "minter": hx(&minter)}));
                     if ok { if let Some(tm) = dep { g.toks.push(Tok { id: rets.last().unwrap().clone(), kind: "native", tm, token: None, salt, deployer, supply, minter, custody: 0 }); } }
@@ -285,22 +307,22 @@ pub fn run(seed: u64, ntraces: usize) {
                 6 | 7 | 8 => { // inbound message through the gateway: transfer (with / without data), deploy, link
                     g.msg += 1; let id = format!("msg-{}", g.msg).into_bytes();
                     let givers: Vec<usize> = g.toks.iter().enumerate().filter(|(_, t)| t.token.is_some() && (t.kind != "lock" || t.custody > 0)).map(|(i, _)| i).collect();
-                    let ti = if !givers.is_empty() && r.chance(4, 5) { Some(*r.pick(&givers)) } else if !g.toks.is_empty() && r.chance(5, 6) { Some(r.below(g.toks.len() as u64) as usize) } else { None };
+                    let ti = if (fvar.is_some() || fbound.is_some()) && !g.toks.is_empty() { Some(0) } else if !givers.is_empty() && r.chance(4, 5) { Some(*r.pick(&givers)) } else if !g.toks.is_empty() && r.chance(5, 6) { Some(r.below(g.toks.len() as u64) as usize) } else { None };
                     let tid = ti.map(|i| g.toks[i].id.clone()).unwrap_or_else(|| r.bytes(32));
                     let maxa = ti.map(|i| if g.toks[i].kind == "lock" { g.toks[i].custody.max(1) } else { 40 }).unwrap_or(40);
-                    let amount = match r.below(6) { 0 => maxa, 1 => maxa + 1, _ => 1 + r.below(maxa) };
+                    let amount = if fvar.is_some() { 1 + r.below(maxa.min(15)) } else { match r.below(6) { 0 => maxa, 1 => maxa + 1, _ => 1 + r.below(maxa) } };
                     let inner = match a {
                         6 => { let recipient = if r.chance(1, 10) { vec![1, 2, 3] } else if r.chance(1, 8) { g.toks.first().map(|t| t.tm.to_vec()).unwrap_or(g.dest.to_vec()) } else { r.pick(&g.users).to_vec() };
                                transfer_payload(&tid, b"0xsender", &recipient, amount, b"") }
                         7 => transfer_payload(&tid, b"0xsender", g.dest.as_bytes(), amount, b"with-data"),
-                        _ => if r.chance(2, 3) {
+                        _ => if fbound == Some(2) { deploy_payload(&tid, b"Remote", b"RMT", 6, &[]) } else if fbound.is_none() && r.chance(2, 3) {
                                 let existing: Vec<&Tok> = g.toks.iter().filter(|t| t.kind == "remote-native").collect();
                                 let tid2 = if !existing.is_empty() && r.chance(2, 3) { existing[0].id.clone() } else { r.bytes(32) };
                                 let minter = match r.below(3) { 0 => vec![], 1 => vec![9, 9], _ => r.pick(&g.users).to_vec() };
                                 deploy_payload(&tid2, b"Remote", b"RMT", 6, &minter)
-                             } else { link_payload(&r.bytes(32), *r.pick(&[0u8, 2, 4]), b"0xsrc", if r.chance(1, 5) { b"bad" } else { &tok2[..] }, &if r.chance(1, 2) { vec![] } else { g.operator.to_vec() }) },
+                             } else { link_payload(&if fbound.is_some() || (ti.is_some() && r.chance(1, 3)) { tid.clone() } else { r.bytes(32) }, *r.pick(&[0u8, 2, 4]), b"0xsrc", if r.chance(1, 5) { b"bad" } else { &tok2[..] }, &if r.chance(1, 2) { vec![] } else { g.operator.to_vec() }) },
                     };
-                    let variant = if r.chance(2, 3) { 0 } else { r.below(9) };
+                    let variant = if let Some(v) = fvar { v } else if g.paused && r.chance(1, 3) { 2 } else if r.chance(2, 3) { 0 } else { r.below(9) };
                     let (chain, src, payload): (Vec<u8>, Vec<u8>, Vec<u8>) = match variant {
                         1 => (b"avalanche".to_vec(), b"hub".to_vec(), inner.clone()),                                   // direct message from a hub-routed chain
                         2 => (b"axelar".to_vec(), b"axelar1hub".to_vec(), hub_wrap(b"avalanche", &inner, 4)),           // properly wrapped
@@ -330,7 +352,7 @@ pub fn run(seed: u64, ntraces: usize) {
                     g.its_tx("setFlowLimits", &caller, "setFlowLimits", vec![big(1), tid.clone(), big(1), big(l)], 0, &[], json!({"ids": [hx(&tid)], "limits": [l.to_string()]}));
                 }
                 10 => { let caller = if r.chance(3, 4) { g.owner.clone() } else { anyone.clone() }; let p = !g.paused;
-                    if p && r.chance(1, 2) { continue; }
+                    if p && !scripted && r.chance(1, 2) { continue; }
                     let (ok, _, _) = g.its_tx("pause", &caller, if p { "pause" } else { "unpause" }, vec![], 0, &[], json!({"paused": p})); if ok { g.paused = p;
                         if p { for _ in 0..(1 + r.below(3)) { script.push(*r.pick(&[4u64, 5, 6, 7, 2, 0, 14, 15, 17, 20, 8])); } script.push(10); } } }
                 11 => { let caller = if r.chance(3, 4) { g.owner.clone() } else { anyone.clone() };
